@@ -9,6 +9,8 @@ checks = {
    text="Held on the executions observed: thousands of hostile transaction sequences per run; every block is followed by a raw scan (sum = supply, no negative balance, key shapes), a supply-delta check against successful mint/burn amounts, Transfer/TransferX pairing and a notification-replay ledger compared with the chain. No proof; reach comes from workload diversity (amount pool, signer classes, committee sizes, multi-tx blocks).", ref="§3 C01"),
  "C02": dict(tech="runtime monitoring: per-transaction authorisation monitor correlating observed balance decreases (storage diff) with the transaction's signer set",
    text="Held on the executions observed: every transaction whose storage diff lowers an account is checked for that account's witness, the Alphabet's, or the account being the calling contract; refusing transfers must report false and leave an empty diff. Prediction-free oracle, sound under refactoring.", ref="§3 C02"),
+ "C03": dict(tech="runtime monitoring: table-driven witness monitor over every method found in the compiled manifests; per transaction effect/inert classification from storage diffs of all contracts, notifications and native token transfers",
+   text="Held on the executions observed: each of the non-safe methods read from the manifests is executed on a freshly prepared world under every signer set of its documented requirement (insufficient ones must be inert, the exact requirement must succeed), on committees where the 2/3+1 and majority accounts differ (3, 7) and coincide (1); safe methods are called in fully witnessed transactions (empty diff, no notification); verify methods are invoked directly and used as contract witnesses of real transactions. A manifest method without a table row makes the run inconclusive.", ref="§3 C03"),
  "C04": dict(tech="runtime monitoring: container registry reference model; complete read sweep of every getter/lister plus raw storage scan and NNS records after every block",
    text="Held on the executions observed: put/putNamed/put(meta)/delete/setEACL histories over colliding populations; the model predicts success and the exact PutSuccess/DeleteSuccess/SetEACLSuccess notifications; every getter for every id ever used (and unused / malformed ids), count, list, containersOf for all owners, alias TXT records and the raw storage (no residue of deleted ids, tombstones present) are compared after every block.", ref="§3 C04"),
  "C05": dict(tech="runtime monitoring: payment monitor over TransferX notifications and Balance storage diffs of every container put, with owner balances driven to the fee threshold",
